@@ -774,6 +774,8 @@ package ugo
 //@ loop 0 invariant[frames] vmFrameInv(vm)
 //@ loop 0 invariant[sp] vm.sp >= 0
 //@ uses (*errHandlers).findFinally
+//@ opaque Copy
+//@ ghostresult Copy
 //@ loop 0 step[constant@C02] prev(vm.curInsts[vm.ip+1]) == byte(OpConstant) ==> vm.sp == prev(vm.sp)+1 && vm.ip == prev(vm.ip)+3 && vm.stack[prev(vm.sp)] == prev(vm.constants[specOperand16(vm.curInsts, vm.ip+2)])
 //@ loop 0 step[null@C02] prev(vm.curInsts[vm.ip+1]) == byte(OpNull) ==> vm.sp == prev(vm.sp)+1 && vm.ip == prev(vm.ip)+1 && vm.stack[prev(vm.sp)] == Undefined
 //@ loop 0 step[true@C02] prev(vm.curInsts[vm.ip+1]) == byte(OpTrue) ==> vm.sp == prev(vm.sp)+1 && vm.ip == prev(vm.ip)+1 && vm.stack[prev(vm.sp)] == Object(True)
@@ -812,6 +814,7 @@ package ugo
 //@ loop 3 invariant[arrayitems@C02] forall k int :: 0 <= k && k < numItems ==> arr[k] == prev(verifrt.Snap(vm.stack[:]))[prev(vm.sp)-numItems+k]
 //@ loop 0 step[array@C02] prev(vm.curInsts[vm.ip+1]) == byte(OpArray) ==> vm.sp == prev(vm.sp)-prev(specOperand16(vm.curInsts, vm.ip+2))+1 && vm.ip == prev(vm.ip)+3 && specArrayOf(vm.stack[vm.sp-1], prev(verifrt.Snap(vm.stack[:])), prev(vm.sp)-prev(specOperand16(vm.curInsts, vm.ip+2)), prev(specOperand16(vm.curInsts, vm.ip+2)))
 //@ loop 0 step[loadmodule@C12] prev(vm.curInsts[vm.ip+1]) == byte(OpLoadModule) ==> vm.sp == prev(vm.sp)+2 && vm.ip == prev(vm.ip)+5 && specLoadModule(prev(vm.modulesCache[specOperand16(vm.curInsts, vm.ip+4)]), prev(vm.constants[specOperand16(vm.curInsts, vm.ip+2)]), vm.stack[prev(vm.sp)], vm.stack[prev(vm.sp)+1])
+//@ loop 0 step[storecopy@C12] prev(vm.curInsts[vm.ip+1]) == byte(OpStoreModule) && prev(specIsCopier(vm.stack[vm.sp-1])) ==> vm.stack[vm.sp-1] == verifrt.DynResult[Object]("Copy", prev(vm.stack[vm.sp-1]), 0)
 //@ loop 0 step[storemodule@C12] prev(vm.curInsts[vm.ip+1]) == byte(OpStoreModule) ==> vm.sp == prev(vm.sp) && vm.ip == prev(vm.ip)+3 && vm.modulesCache[prev(specOperand16(vm.curInsts, vm.ip+2))] == vm.stack[vm.sp-1]
 //@ loop 0 panicpoint
 //@ loop 0 split byte vm.curInsts[vm.ip+1]: 0..43, other
